@@ -17,7 +17,10 @@ RULE = ('trim: for every subset of the four borders a raster (1..7 x 1..7, incl.
         'shape (and a few smaller ones: positional clamped slice), id lists with several ids up to 20, unsorted / repeated / far apart '
         '([1,8], (8,1), [8,1,8], (17,8,1), ...); index coordinates are random increasing/decreasing dyadic numbers and most rasters '
         'also carry non-index coordinates (scalar spatial_ref/band, 2-D lon(y,x), 1-D auxiliary coords along y and x) — ALL coordinates '
-        'of the result are compared with the original restricted to the window; attrs a small dict. Thorough tier adds every raster over {0,1,NaN} up to 3x3 for three exclusion sets. '
+        'of the result are compared with the original restricted to the window; attrs a small dict. Also: cells NEAR a listed number '
+        '(3e-9 vs 0.0, 100001 vs 100000, -9999.01 vs -9999, 2.000002 vs 2.0) as the only kept cells (trim) / as neighbouring zones (crop), '
+        'ids > 2**24, the empty exclusion list, tuple / list / ndarray arguments, int8..uint64 and bool rasters, 15..40-wide rasters, four '
+        'dimension namings, rasters without coordinate labels, repeated / descending labels, the name argument. Thorough tier adds every raster over {0,1,NaN} up to 3x3 for three exclusion sets. '
         'A case is non-trivial when at least one cell is kept and at least one is excluded.')
 TRUSTED = [
     'finite cell values / exclusion values / coordinates of one case are embedded into Z by a common power-of-two scale '
@@ -47,7 +50,10 @@ LEVEL_NOTE = ('Trusted: the Coq kernel, extraction, the OCaml driver, the value 
               'and that Numba compiles the loops of _trim/_crop as written.')
 
 KEY_NAN = 'trim-nan-never-excluded'
+KEY_EMPTY = 'trim-empty-values-typing-error'
 DTYPES = ['float64', 'float32', 'int64', 'int32', 'uint8']
+MORE_DTYPES = ['int8', 'int16', 'uint16', 'uint32', 'uint64', 'bool']
+DIMS = [('y', 'x'), ('y', 'x'), ('lat', 'lon'), ('row', 'col'), ('x', 'y')]
 NAN = float('nan')
 
 
@@ -72,25 +78,35 @@ def to_floats(a):
 def build_values(vals, as_int, kind):
     """the `values` / `zones_ids` argument as the caller would write it"""
     vs = [int(v) for v in vals] if as_int else [float(v) for v in vals]
+    if kind == 'ndarray':
+        return np.array(vs, dtype='int64' if as_int else 'float64')
     return tuple(vs) if kind == 'tuple' else list(vs)
 
 
-def build_raster(data, dtype, ys, xs, attrs=None, aux=True):
-    """2-D raster with index coordinates y/x and (aux=True) the non-index coordinates real rasters carry:
-    scalar spatial_ref / band, a 2-D lon(y, x), and 1-D auxiliary coordinates along y and along x."""
+def build_raster(data, dtype, ys, xs, attrs=None, aux=True, dims=('y', 'x')):
+    """2-D raster with index coordinates along both dims and (aux=True) the non-index coordinates real rasters carry:
+    scalar spatial_ref / band, a 2-D lon, and 1-D auxiliary coordinates along each dim; aux='nocoords': no coordinates at all."""
     a = np.array(data, dtype='float64')
     if a.ndim != 2:
         a = a.reshape(len(data), len(xs))
     a = a.astype(dtype)
     rows, cols = a.shape
-    coords = {'y': np.array(ys, dtype='float64'), 'x': np.array(xs, dtype='float64')}
-    if aux:
+    dy, dx = dims
+    if aux == 'nocoords':
+        coords = {}
+    else:
+        coords = {dy: np.array(ys, dtype='float64'), dx: np.array(xs, dtype='float64')}
+    if aux is True:
         coords['spatial_ref'] = 32633
         coords['band'] = 1
-        coords['lon'] = (('y', 'x'), np.arange(rows * cols, dtype='float64').reshape(rows, cols) / 4.0 - 3.0)
-        coords['row_id'] = (('y',), 1000 + np.arange(rows))
-        coords['col_w'] = (('x',), 0.5 * np.arange(cols) + 7.0)
-    return xr.DataArray(a, dims=['y', 'x'], coords=coords, attrs=dict(attrs or {'res': 1, 'unit': 'm'}), name='src')
+        coords['geo_lon'] = ((dy, dx), np.arange(rows * cols, dtype='float64').reshape(rows, cols) / 4.0 - 3.0)
+        coords['row_id'] = ((dy,), 1000 + np.arange(rows))
+        coords['col_w'] = ((dx,), 0.5 * np.arange(cols) + 7.0)
+    return xr.DataArray(a, dims=list(dims), coords=coords, attrs=dict(attrs or {'res': 1, 'unit': 'm'}), name='src')
+
+
+def raster_args(case):
+    return dict(aux=case.get('aux', True), dims=tuple(case.get('dims', ('y', 'x'))))
 
 
 def listed(v, vals, nan_aware):
@@ -132,7 +148,7 @@ def check_window_oracle(ctx, what, case, res, src, win, key=None):
             if not same_val(g, e):
                 return bad('cell (%d,%d) of the result is %r, the original at (%d,%d) is %r' % (i, j, g, t + i, l + j, e))
     # every coordinate of the original (index, scalar, auxiliary 1-D, 2-D), restricted to the window by position
-    win_slice = {'y': slice(t, b + 1), 'x': slice(l, r + 1)}
+    win_slice = {src.dims[0]: slice(t, b + 1), src.dims[1]: slice(l, r + 1)}
     missing = sorted(set(map(str, src.coords)) - set(map(str, res.coords)))
     extra = sorted(set(map(str, res.coords)) - set(map(str, src.coords)))
     if missing or extra:
@@ -156,18 +172,22 @@ def check_window_oracle(ctx, what, case, res, src, win, key=None):
 def run_trim(ctx, zonal, case):
     """returns (model_line, expectation tuple for the correspondence) or None"""
     vals = case['values']
-    src = build_raster(case['data'], case['dtype'], case['ys'], case['xs'], aux=case.get('aux', True))
+    src = build_raster(case['data'], case['dtype'], case['ys'], case['xs'], **raster_args(case))
     data = to_floats(src.data)
     try:
+        kw = {'name': case['name']} if case.get('name') else {}
         if vals is None:
-            res = zonal.trim(src)
             excl = [NAN]
+            res = zonal.trim(src, **kw)
         else:
             excl = [float(v) for v in vals]
-            res = zonal.trim(src, values=build_values(vals, case['as_int'], case['kind']))
+            res = zonal.trim(src, values=build_values(vals, case['as_int'], case['kind']), **kw)
     except Exception as e:
-        ctx.violation('oracle', 'trim raised %s: %s' % (type(e).__name__, str(e)[:200]), case)
+        ctx.violation('oracle', 'trim(values=%r) raised %s: %s' % (vals, type(e).__name__, str(e)[:200]), case,
+                      key=KEY_EMPTY if (vals is not None and len(vals) == 0 and case['kind'] in ('tuple', 'list')) else None)
         return None
+    if res.name != (case.get('name') or 'trim'):
+        ctx.violation('oracle', 'trim(name=%r): result is named %r' % (case.get('name'), res.name), case)
     # oracle: the smallest window containing every cell whose value is not in the excluded set (NaN excluded when listed)
     keep = [[not listed(v, excl, True) for v in row] for row in data]
     win = span(keep)
@@ -193,15 +213,18 @@ def run_trim(ctx, zonal, case):
 
 def run_crop(ctx, zonal, case):
     ids = case['values']
-    zones = build_raster(case['data'], case['dtype'], case['ys'], case['xs'], aux=case.get('aux', True))
+    zones = build_raster(case['data'], case['dtype'], case['ys'], case['xs'], **raster_args(case))
     vshape = case.get('vshape') or [len(case['data']), len(case['xs'])]
     vy, vx = case['ys'][:vshape[0]], case['xs'][:vshape[1]]
     vdata = [row[:vshape[1]] for row in case['vdata'][:vshape[0]]]
-    values = build_raster(vdata, case['vdtype'], vy, vx, attrs={'layer': 'values', 'k': 3}, aux=case.get('aux', True))
+    values = build_raster(vdata, case['vdtype'], vy, vx, attrs={'layer': 'values', 'k': 3}, **raster_args(case))
     zdata = to_floats(zones.data)
     fids = [float(v) for v in ids]
     try:
-        res = zonal.crop(zones, values, build_values(ids, case['as_int'], case['kind']))
+        kw = {'name': case['name']} if case.get('name') else {}
+        res = zonal.crop(zones, values, build_values(ids, case['as_int'], case['kind']), **kw)
+        if res.name != (case.get('name') or 'crop'):
+            ctx.violation('oracle', 'crop(name=%r): result is named %r' % (case.get('name'), res.name), case)
     except Exception as e:
         ctx.violation('oracle', 'crop raised %s: %s' % (type(e).__name__, str(e)[:200]), case)
         return None
@@ -257,7 +280,9 @@ def compare_with_model(ctx, pending):
                           dict(case, impl_bounds=bounds, model_bounds=mb))
             continue
         got = to_floats(res.data) if res.ndim == 2 else []
-        gy, gx = coords_of(res, 'y'), coords_of(res, 'x')
+        gy, gx = coords_of(res, res.dims[0]), coords_of(res, res.dims[1])
+        if case.get('aux') == 'nocoords':      # no labels: xarray reports positions 0..n-1; compare the lengths only
+            mys, mxs, gy, gx = [0] * len(mys), [0] * len(mxs), [0] * len(gy), [0] * len(gx)
         ok = len(got) == len(mrows) and len(gy) == len(mys) and len(gx) == len(mxs) and \
             all(len(a) == len(b) and all(xvio.same(u, v) for u, v in zip(a, b)) for a, b in zip(got, mrows)) and \
             all(xvio.same(u, v) for u, v in zip(gy, mys)) and all(xvio.same(u, v) for u, v in zip(gx, mxs))
@@ -279,6 +304,10 @@ EXCL_SETS = [
     ([2.0, NAN, 0.0], False, 'tuple'),
     ([1.5], False, 'tuple'),
     ([0.0, NAN], False, 'list'),
+    # values NEAR an excluded one must be kept (3e-9 vs 0.0, 100001 vs 100000, -9999.01 vs -9999, 2.000002 vs 2.0)
+    ([0.0], False, 'tuple'), ([100000], True, 'tuple'), ([-9999.0], False, 'tuple'), ([2.0, NAN], False, 'ndarray'),
+    ([0], True, 'ndarray'), ([16777217], True, 'tuple'),
+    ([], False, 'tuple'),        # nothing excluded: the whole raster
 ]
 ID_SETS = [
     ([1], True, 'tuple'), ([1, 3], True, 'tuple'), ([2.0], False, 'tuple'), ([0], True, 'list'),
@@ -287,6 +316,9 @@ ID_SETS = [
     ([1, 8], True, 'list'), ([8, 1], True, 'tuple'), ([8, 1, 8], True, 'list'), ([1, 17], True, 'tuple'),
     ([17, 8], True, 'tuple'), ([1, 8, 17], True, 'tuple'), ([17, 8, 1], True, 'list'), ([0, 1, 8, 17], True, 'tuple'),
     ([12.0, 3.0], False, 'tuple'), ([20, 5, 11], True, 'tuple'), ([9, 16], True, 'tuple'),
+    # zone ids NEAR a listed id are other zones; ids above 2**24; ndarray lists
+    ([100000], True, 'tuple'), ([100000, 7], True, 'list'), ([2.0, 0.0], False, 'tuple'), ([16777217, 3], True, 'tuple'),
+    ([1, 3], True, 'ndarray'), ([5.0], False, 'ndarray'), ([-9999.0, 4.0], False, 'tuple'),
 ]
 
 
@@ -296,7 +328,40 @@ def rand_coords(rng, n):
     c = [start + i * step for i in range(n)]
     if rng.random() < 0.4:
         c.reverse()
+    if rng.random() < 0.15:      # repeated / non-monotone labels: slicing is positional, labels are just carried
+        c = [rng.choice(c) for _ in range(n)]
     return c
+
+
+def representable(v, dtype):
+    if isnan(v) or math.isinf(v):
+        return dtype.startswith('float')
+    if dtype.startswith('float'):
+        return dtype == 'float64' or float(np.float32(v)) == v or v != int(v)
+    if v != int(v):
+        return False
+    if dtype == 'bool':
+        return v in (0.0, 1.0)
+    info = np.iinfo(dtype)
+    return info.min <= v <= info.max
+
+
+def near_values(vals, dtype):
+    """numbers close to (within 1e-8 + 1e-5*|v| of) but different from a listed number, representable in dtype"""
+    out = []
+    for v in vals:
+        if isnan(v) or math.isinf(v):
+            continue
+        if dtype.startswith('float'):
+            out += [3e-9, -2e-9] if v == 0 else [v * (1 + 1e-6), v - abs(v) * 2e-6]
+        elif abs(v) >= 1e5:
+            out += [v + 1, v - 1]
+    res = []
+    for w in out:
+        w = float(np.array(w, dtype='float64').astype(dtype)) if dtype != 'bool' and representable(w, dtype) else None
+        if w is not None and not listed(w, vals, False) and w not in res:
+            res.append(w)
+    return res
 
 
 def cell_pools(vals, dtype, want_listed_nan_aware):
@@ -305,12 +370,12 @@ def cell_pools(vals, dtype, want_listed_nan_aware):
     cands = [0.0, 1.0, 2.0, 3.0, 4.0, 7.0]
     if isf:
         cands += [NAN, float('inf'), 1.5, 2.5, -1.0, -0.0]
-    elif not dtype.startswith('u'):
+    else:
         cands += [-1.0]
     for v in vals:      # every listed number the dtype can hold is a possible cell value
-        if not isnan(v) and not math.isinf(v) and (isf or v == int(v)) and not (dtype.startswith('u') and v < 0) \
-                and not any(v == c for c in cands):
+        if not any(v == c for c in cands) and not isnan(v):
             cands.append(float(v))
+    cands = [v for v in cands if representable(v, dtype)] + near_values(vals, dtype)
     inn = [v for v in cands if listed(v, vals, want_listed_nan_aware)]
     out = [v for v in cands if not listed(v, vals, want_listed_nan_aware)]
     return inn, out
@@ -350,6 +415,80 @@ BORDER_SUBSETS = [tuple(b for b, on in zip(('top', 'bottom', 'left', 'right'), b
                   for bits in itertools.product([0, 1], repeat=4)]
 
 
+# each (container, int/float, length) signature of the values argument is paired with a few raster dtypes: every pair is a
+# separate Numba compilation of _trim/_crop (~0.4 s), so the quick tier cannot afford the full cross product
+HOME = {
+    ('tuple', True, 1): ['int64', 'float64', 'uint8'], ('tuple', True, 2): ['int32', 'float32'],
+    ('tuple', True, 3): ['int64', 'uint8'], ('tuple', True, 4): ['int32', 'float64'],
+    ('tuple', False, 1): ['float64', 'float32', 'int32'], ('tuple', False, 2): ['float64', 'float32', 'int64'],
+    ('tuple', False, 3): ['float32', 'int32'], ('tuple', False, 0): ['float64', 'int64'],
+    ('list', True): ['int64', 'float32'], ('list', False): ['float64', 'uint8'],
+    ('ndarray', True): ['int32', 'float64'], ('ndarray', False): ['float64', 'int64'],
+}
+
+
+def pick_set_and_dtype(i, sets, thorough=False):
+    if i % 6 == 5:      # the other integer widths / unsigned / bool, with one canonical single-number list
+        vals, as_int, kind = ([0], True, 'tuple') if sets is EXCL_SETS else ([1], True, 'tuple')
+        dtype = MORE_DTYPES[(i // 6) % len(MORE_DTYPES)]
+    else:
+        vals, as_int, kind = sets[i % len(sets)]
+        n = 1 if vals is None else len(vals)
+        home = HOME[(kind, as_int and vals is not None, n) if kind == 'tuple' else (kind, as_int)]
+        dtype = DTYPES[(i // 2) % len(DTYPES)] if thorough else home[(i // len(sets)) % len(home)]
+    fvals = [NAN] if vals is None else [float(v) for v in vals]
+    fin = [v for v in fvals if not isnan(v) and not math.isinf(v)]
+    if any(v == int(v) and not representable(v, dtype) for v in fin):
+        dtype = 'float64' if dtype.startswith('float') else 'int64'      # a listed number the dtype cannot hold
+    return vals, as_int, kind, fvals, dtype
+
+
+def decorate(i, case):
+    """dimension names, coordinate flavour and the `name` argument"""
+    case['aux'] = 'nocoords' if i % 9 == 0 else (i % 4 != 0)
+    case['dims'] = list(DIMS[i % len(DIMS)])
+    if i % 5 == 0:
+        case['name'] = 'window%d' % (i % 3)
+    return case
+
+
+def one_case(rng, fn, i, borders, rows, cols, sets, thorough=False):
+    vals, as_int, kind, fvals, dtype = pick_set_and_dtype(i, sets, thorough)
+    inn, out = cell_pools(fvals, dtype, fn == 'trim')
+    if fn == 'trim':
+        inside, outside = out, inn      # kept cells = not listed
+    else:
+        inside, outside = inn, out      # selected cells = listed ids
+    near = near_values(fvals, dtype)
+    fam_near = ''
+    if near and inside and outside and rng.random() < 0.6:
+        fam_near = '/near-equal'
+        if fn == 'trim':
+            inside = near                   # every kept cell is close to (but not) an excluded value
+        else:
+            outside = near + outside[:1]    # the zones around the selected ones have ids close to a listed id
+    if not inside or not outside:
+        # e.g. int raster with only NaN excluded, or nothing excluded: every cell is kept (nothing to trim)
+        pool = inside or outside
+        data = [[rng.choice(pool) for _ in range(cols)] for _ in range(rows)]
+        fam = 'one-pool'
+    else:
+        data = layout_raster(rng, rows, cols, borders, inside, outside)
+        fam = 'borders=' + ('+'.join(borders) or 'none') + fam_near
+        if data is None:
+            data = [[rng.choice(inside + outside) for _ in range(cols)] for _ in range(rows)]
+            fam = 'random'
+    case = decorate(i, dict(fn=fn, dtype=dtype, data=data, values=vals, as_int=as_int, kind=kind,
+                            ys=rand_coords(rng, rows), xs=rand_coords(rng, cols)))
+    if fn == 'crop':
+        case['vdtype'] = rng.choice(['float64', 'int32', 'float32'])
+        case['vdata'] = [[float(rng.randint(0, 99)) for _ in range(cols)] for _ in range(rows)]
+        if rng.random() < 0.12 and rows >= 2 and cols >= 2 and max(rows, cols) <= 8:
+            case['vshape'] = [rng.randint(1, rows), rng.randint(1, cols)]
+            fam += '/smaller-values'
+    return fam, case
+
+
 def gen_cases(ctx, fn, n_per_subset):
     rng = ctx.rng
     sets = EXCL_SETS if fn == 'trim' else ID_SETS
@@ -357,13 +496,6 @@ def gen_cases(ctx, fn, n_per_subset):
     for borders in BORDER_SUBSETS:
         for _ in range(n_per_subset):
             i += 1
-            vals, as_int, kind = sets[i % len(sets)]
-            dtype = DTYPES[(i // 2) % len(DTYPES)]
-            fvals = [NAN] if vals is None else [float(v) for v in vals]
-            if dtype == 'uint8':
-                fvals_ok = all(isnan(v) or v >= 0 for v in fvals)
-                if not fvals_ok:
-                    dtype = 'int32'
             # smallest extent along an axis that lets the window touch exactly the requested borders
             minr = 3 - ('top' in borders) - ('bottom' in borders)
             minc = 3 - ('left' in borders) - ('right' in borders)
@@ -374,36 +506,15 @@ def gen_cases(ctx, fn, n_per_subset):
                 rows, cols = rng.randint(minr, 7), 1
             else:
                 rows, cols = rng.randint(minr, 7), rng.randint(minc, 7)
-            inn, out = cell_pools(fvals, dtype, fn == 'trim')
-            if fn == 'trim':
-                inside, outside = out, inn      # kept cells = not listed
-            else:
-                inside, outside = inn, out      # selected cells = listed ids
-            if not inside or not outside:
-                # e.g. int raster with only NaN excluded: every cell is kept; still a valid case (nothing to trim)
-                pool = inside or outside
-                data = [[rng.choice(pool) for _ in range(cols)] for _ in range(rows)]
-                fam = 'one-pool'
-            else:
-                data = layout_raster(rng, rows, cols, borders, inside, outside)
-                fam = 'borders=' + ('+'.join(borders) or 'none')
-                if data is None:
-                    data = [[rng.choice(inside + outside) for _ in range(cols)] for _ in range(rows)]
-                    fam = 'random'
-            case = dict(fn=fn, dtype=dtype, data=data, values=vals, as_int=as_int, kind=kind,
-                        ys=rand_coords(rng, rows), xs=rand_coords(rng, cols), aux=(i % 4 != 0))
-            if fn == 'crop':
-                case['vdtype'] = rng.choice(['float64', 'int32', 'float32'])
-                case['vdata'] = [[float(rng.randint(0, 99)) for _ in range(cols)] for _ in range(rows)]
-                if rng.random() < 0.12 and rows >= 2 and cols >= 2:
-                    case['vshape'] = [rng.randint(1, rows), rng.randint(1, cols)]
-                    fam += '/smaller-values'
-            yield fam, case
+            yield one_case(rng, fn, i, borders, rows, cols, sets, not ctx.quick())
+    # larger rasters
+    for k in range(4 if ctx.quick() else 40):
+        i += 1
+        fam, case = one_case(rng, fn, i, rng.choice(BORDER_SUBSETS), rng.randint(15, 40), rng.randint(15, 40), sets, not ctx.quick())
+        yield 'large/' + fam, case
     # fully random and all-excluded / none-selected rasters
     for j in range(n_per_subset * 6):
-        vals, as_int, kind = sets[j % len(sets)]
-        dtype = DTYPES[j % len(DTYPES)]
-        fvals = [NAN] if vals is None else [float(v) for v in vals]
+        vals, as_int, kind, fvals, dtype = pick_set_and_dtype(j, sets, not ctx.quick())
         rows, cols = rng.randint(1, 6), rng.randint(1, 6)
         inn, out = cell_pools(fvals, dtype, fn == 'trim')
         empty = j % 4 == 3
@@ -412,8 +523,8 @@ def gen_cases(ctx, fn, n_per_subset):
         else:
             pool = (out if empty and out else inn + out)
         data = [[rng.choice(pool) for _ in range(cols)] for _ in range(rows)]
-        case = dict(fn=fn, dtype=dtype, data=data, values=vals, as_int=as_int, kind=kind,
-                    ys=rand_coords(rng, rows), xs=rand_coords(rng, cols), aux=(j % 3 != 0))
+        case = decorate(j, dict(fn=fn, dtype=dtype, data=data, values=vals, as_int=as_int, kind=kind,
+                                ys=rand_coords(rng, rows), xs=rand_coords(rng, cols)))
         if fn == 'crop':
             case['vdtype'] = 'float64'
             case['vdata'] = [[float(rng.randint(0, 99)) for _ in range(cols)] for _ in range(rows)]
@@ -479,7 +590,7 @@ def search(ctx):
 def replay_case(ctx, case):
     zonal = _impl()
     case = {k: v for k, v in case.items() if k in ('fn', 'dtype', 'data', 'values', 'as_int', 'kind', 'ys', 'xs',
-                                                   'vdtype', 'vdata', 'vshape', 'aux')}
+                                                   'vdtype', 'vdata', 'vshape', 'aux', 'dims', 'name')}
 
     def unjson(v):
         return {'nan': NAN, 'inf': float('inf'), '-inf': float('-inf')}.get(v, v) if isinstance(v, str) else v
